@@ -27,6 +27,7 @@ PROPS = {
                                      "AsyncDispatcher::setup and the deprecated res / mut_res are not under contract"]),
     "C16": dict(runs=[dict(unit=U5, groups=["tree"], mode="P", features=DBG), dict(unit=U5, groups=["tree"], mode="T", features=DBG), dict(unit=U5, groups=["tree"], mode="T")],
                 own_groups=["tree", "P", "T"], owns_shared=True,
+                fail_undecided="the node no longer satisfies the reference contract (which fixes the ORDER in which leaves are reported / set up; the property demands the union and every leaf once, not an order)",
                 undecided_sentences=["'every leaf of an earlier child finishes before any leaf of a later child starts' in time: Seq::run is two consecutive calls (program order of the verifier's sequential semantics); 'children of a par node may overlap': rayon (rule R11 treats join as calling both closures once)",
                                      "par! / seq! macros are thin wrappers over new / with (not expanded here)"]),
     "C17": dict(runs=[dict(unit=U4, groups=["meta"], mode="P")], own_groups=["meta", "P"], owns_shared=True,
@@ -38,6 +39,7 @@ PROPS = {
     "C12": dict(runs=[dict(unit=U1, groups=["tl"]), dict(unit=U6, groups=["tlw"], mode="T")], own_groups=["tl", "tlw"],
                 undecided_sentences=["'on the thread that called dispatch, never on a pool worker' (thread identity) is not a contract over sequential code", "'after every other system has finished' in time: program order of inner.dispatch then the thread-local loop is proved, rayon's fork-join is trusted"]),
     "C06": dict(runs=[dict(unit=U2, groups=["sd"], mode="P")], own_groups=["sd", "P"], owns_shared=True,
+                fail_undecided="the implementation no longer satisfies the reference contract (which fixes the ORDER of the reported ids and of the members' setups; the property speaks of the sets and of the composition)",
                 undecided_sentences=["'all of it is released when the value is dropped': Rust drop glue and atomic_refcell's Drop (trusted); the contract shows no impl stores a guard anywhere but in the returned value",
                                      "derive macro: the generator (a proc-macro over all token streams) is out of reach; its *output* is verified for the sample family in units/u2_sysdata/derive_samples.rs (bounded: sampled programs)"]),
     "C07": dict(runs=[dict(unit=U1, groups=["bat"])], own_groups=["bat"],
@@ -51,7 +53,8 @@ PROPS = {
     "C20": dict(runs=[dict(unit=U1, groups=["plan"], mode="T")], own_groups=["plan"], owns_shared="safety",
                 undecided_sentences=["the text itself: format strings and the sanitised / placeholder labels are uninterpreted (the label of a named system is sanitise(a name registered for that id), of an unnamed one sanitise(placeholder(id)))",
                                      "'at the position at which the built dispatcher really runs it': the printed table is the id table; that it has the shape of the executed list is the lock-step invariant (C04) and build() returning that list"]),
-    "C13": dict(runs=[dict(unit=U1, groups=["hooks"]), dict(unit=U6, groups=["ahooks", "hooks"], mode="T")], own_groups=["hooks", "ahooks"], undecided_sentences=[]),
+    "C13": dict(runs=[dict(unit=U1, groups=["hooks"]), dict(unit=U6, groups=["ahooks", "hooks"], mode="T")], own_groups=["hooks", "ahooks"],
+                fail_undecided="the setup / dispose fan-out no longer produces the reference log (the contracts fix an order of the fan-out - stages, groups, then thread-local - which the property does not demand: it demands every system exactly once)", undecided_sentences=[]),
 }
 
 TRUSTED = {
